@@ -982,7 +982,12 @@ func hangSite(stderr string) string {
 	if m == nil {
 		return "unknown-site"
 	}
-	return strings.NewReplacer("(", "", ")", "", "*", "").Replace(m[1])
+	site := m[1]
+	if i := strings.Index(site, "(0x"); i >= 0 {
+		site = site[:i]
+	}
+	site = strings.NewReplacer("(", "", ")", "", "*", "").Replace(site)
+	return regexp.MustCompile(`0x[0-9a-f]+.*$`).ReplaceAllString(site, "")
 }
 
 func sanitize(s string) string {
